@@ -25,12 +25,12 @@ from harness.props import ep_util as E
 
 PROP = "C12"
 # the refinement lemmas cycle level -> event level, one file per endpoint kind (import Props.C12)
-REFINE_MODULES = ["LunaVerif.Lemmas.C12SigRefine"]
+REFINE_MODULES = ["LunaVerif.Lemmas.C12SigRefine", "LunaVerif.Lemmas.C12InRefine"]
 LEAN_MODULES = ["LunaVerif.Props.C12"] + REFINE_MODULES
 DRIVER = E.DRIVER
 REQUIRED_THEOREMS = ["in_step_foreign_is_silent", "out_step_foreign_is_silent", "sig_step_foreign_is_silent",
                      "foreign_transaction_invisible", "mux_passes_selected", "at_most_one_answers",
-                     "sig_cycle_refines_event", "sig_cycle_refines_run"]
+                     "sig_cycle_refines_event", "sig_cycle_refines_run", "in_cycle_refines_event", "in_cycle_refines_run"]
 RULE = ("dev: adaptive legal host schedules (IN/OUT/PING on 5 endpoints, unowned tokens, other devices, lost "
         "handshakes, retries, wrong PIDs, bad CRCs, control transfers incl. CLEAR_FEATURE(ENDPOINT_HALT)) on a "
         "random endpoint layout, each re-run with the foreign traffic deleted for 3 target endpoints; gate/mux: "
@@ -44,9 +44,10 @@ ASSUMPTIONS = [
 ]
 PARTIAL = ("foreign_transaction_invisible is proved on the event-level model (tied to the real device by event-level "
            "co-simulation and by the differential monitor); the per-cycle lemmas are proved on the cycle-level models "
-           "(tied by lock-step co-simulation); the cycle-level model refines the event-level one for the status endpoint "
-           "(sig_cycle_refines_event / _run, little-endian configuration); no such refinement lemma yet for the stream IN "
-           "and stream OUT endpoints")
+           "(tied by lock-step co-simulation); the cycle-level models refine the event-level one for the status endpoint "
+           "(sig_cycle_refines_event / _run, little-endian configuration) and for the stream IN endpoint "
+           "(in_cycle_refines_event / _run over C11's InXfer model with both packet memories; flush = discard = 0, producer "
+           "bytes between transactions); no such refinement lemma yet for the stream OUT endpoint")
 
 I, O, P, S = U.PID_IN, U.PID_OUT, U.PID_PING, U.PID_SETUP
 
